@@ -54,14 +54,14 @@ def gen_case(rng, hook, cat=None):
     """One scripted scenario + scheduling parameters.  Categories: mixed (mostly valid), tight (limits: queue 1-3, max = initial,
     initial 0), idle (tiny idle time-out: idle exits race submissions), race (controller ops in the middle of submissions),
     late (submissions after stop/shutdown: refusals), nested (tasks that submit tasks that submit)."""
-    cat = cat or rng.choice(["mixed", "mixed", "tight", "idle", "race", "race", "late", "nested"])
+    cat = cat or rng.choice(["mixed", "mixed", "tight", "idle", "race", "race", "late", "nested", "multi", "multi", "restart"])
     init = rng.choice([0, 1, 1, 2, 3])
     mx = max(1, init) + rng.choice([0, 0, 1, 2])
     q = rng.choice([2, 3, 8, 8, 32])
     idle = rng.choice([100, 100, 3600000])
     if cat == "tight":
         init = rng.choice([0, 1, 2])
-        mx = max(1, init)
+        mx = rng.choice([max(1, init), max(1, init), 0, init // 2])   # 0 / below initialSize: clamped by effectiveMaxSize (FC09b)
         q = rng.choice([1, 1, 2, 3])
     if cat == "idle":
         idle = rng.choice([1, 1, 5])
@@ -85,7 +85,8 @@ def gen_case(rng, hook, cat=None):
         if i < nb - 1:
             n = rng.choice([0, 0, 0, 1, 2]) if cat != "nested" else rng.choice([1, 2, 2, 3])
         a = ["%s:%d" % (rng.choice("etr"), rng.range(i + 1, nb - 1)) for _ in range(n)]
-        bodies.append("body %d %s" % (1 if rng.chance(3, 10) else 0, ",".join(a) if a else "-"))
+        # 0 returns, 1 throws, 2 throws and the error handler throws at its first invocation
+        bodies.append("body %d %s" % (rng.choice([0, 0, 0, 0, 0, 0, 0, 1, 1, 2]), ",".join(a) if a else "-"))
     pre = []
     nsub = rng.range(0, 4) if cat != "race" else rng.range(2, 4)
     for _ in range(nsub):
@@ -103,15 +104,40 @@ def gen_case(rng, hook, cat=None):
         ops += ["a=%s:%d" % (rng.choice("etr"), rng.below(nb)) for _ in range(rng.range(1, 3))]
         if rng.chance(1, 2):
             ops.append("s=" + acts(4))
+    ctls = []
+    if cat == "multi":
+        # additional controller threads calling drain/stop/shutdown concurrently with thread 0 and with each other
+        for i in range(rng.range(1, 3)):
+            cops = [rng.choice(["stop", "sd", "sd", "d=50", "d=100", "a=%s:%d" % (rng.choice("etr"), rng.below(nb))]) for _ in range(rng.range(1, 3))]
+            ctls.append("ctl " + " ".join(cops))
+        pos = sorted(rng.range(0, len(ops)) for _ in ctls)
+        for i, k2 in reversed(list(enumerate(pos))):
+            ops.insert(k2, "c=%d" % i)
+        if not any(o in ("stop", "sd") for o in ops):
+            ops.append(rng.choice(["stop", "sd"]))
     ops.append("j")
+    if cat == "restart":
+        # stop, restart (reset() + start()), more work, stop again; sometimes a refused restart
+        if not any(o == "stop" for o in ops):
+            ops.append("stop")
+        if rng.chance(1, 6):
+            ops.insert(rng.range(0, len(ops) - 1), "rs")
+        ops.append("rs")
+        for _ in range(rng.range(1, 4)):
+            ops.append(rng.choice(["a=%s:%d" % (rng.choice("etr"), rng.below(nb)), "s=" + acts(5)]))
+        ops.append("j")
+        ops.append(rng.choice(["stop", "sd", "stop"]))
+        if rng.chance(1, 3):
+            ops += ["rs", "a=e:%d" % rng.below(nb), "stop"]
     if rng.chance(1, 3):
         ops += rng.choice([["stop"], ["sd"], ["d=100"], ["a=t:%d" % rng.below(nb)]])
     ops.append("x")
-    det = 0   # DETACHED is excluded by hypothesis: its destructor returns while workers still use the object (use-after-free by design)
-    lines = ["reset %d %d %d %d %d" % (init, mx, q, det, hook)] + bodies + ["main " + " ".join(ops)]
+    # IMMEDIATE or GRACEFUL (both join); DETACHED is excluded by hypothesis: its destructor returns while workers still use the object
+    mode = rng.choice([0, 0, 1])
+    lines = ["reset %d %d %d %d %d" % (init, mx, q, mode, hook)] + bodies + ctls + ["main " + " ".join(ops)]
     seed = rng.range(1, 10 ** 9)
     run = "run %d %d %d %d" % (seed, idle, rng.choice([2, 8, 8, 50, 0]), rng.choice([0, 0, 0, 7]))
-    return {"cat": cat, "lines": lines, "run": run, "cfg": {"init": init, "max": mx, "queue": q, "detached": det}}
+    return {"cat": cat, "lines": lines, "run": run, "cfg": {"init": init, "max": mx, "queue": q, "detached": 1 if mode == 2 else 0}}
 
 
 # ------------------------------------------------------------------------------------------------ running
@@ -245,7 +271,12 @@ def parse_mon(l):
 
 def body_throws(case, ix):
     bodies = [l for l in case["lines"] if l.startswith("body ")]
-    return bodies[ix].split()[1] == "1"
+    return bodies[ix].split()[1] != "0"
+
+
+def body_hthrow(case, ix):
+    bodies = [l for l in case["lines"] if l.startswith("body ")]
+    return bodies[ix].split()[1] == "2"
 
 
 def monitor(case, r):
@@ -298,7 +329,7 @@ def monitor(case, r):
                 if m["futures"].get(s["id"]) != want:
                     fails.append("P4: future of task %d is %s, expected %s" % (s["id"], m["futures"].get(s["id"]), want))
             if s["mode"] in "et" and not detached:
-                if t["handled"] != (1 if throws else 0):
+                if t["handled"] != ((2 if body_hthrow(case, s["body"]) else 1) if throws else 0):
                     fails.append("P4: error handler ran %d times for task %d (throws=%s)" % (t["handled"], s["id"], throws))
         else:
             if t["start"] != 0:
@@ -309,20 +340,24 @@ def monitor(case, r):
                 fails.append("P4: submission %d refused as '%s' but the pool state says '%s'" % (s["id"], s["res"], s["why"]))
     if m["early"]:
         fails.append("P4: a future was ready before its task's body had finished (%d observations)" % m["early"])
-    # returns: only after every accepted task has finished; nothing starts / is accepted afterwards
+    # returns: only after every accepted task OF THE SAME EPOCH has finished; nothing starts afterwards until a restart.
+    # An epoch ends at a successful restart (code 10); submitters are joined before a restart, so call ticks partition cleanly.
+    restarts = sorted(q for code, q in m["mlog"] if code == 10)
+
+    def epoch(x):
+        return sum(1 for r0 in restarts if r0 < x)
     if not detached:
         for code, q in m["mlog"]:
             if code not in (4, 7, 8):
                 continue
             what = {4: "stop()", 7: "shutdown()", 8: "~ThreadPool"}[code]
-            # every accepted task of the run must have finished before this return: nothing is accepted after a shutdown-type
-            # return, and what was accepted before it (even if the submitting call itself returns later) is joined
+            e = epoch(q)
             for s in m["subs"]:
                 t = m["tasks"].get(s["id"])
-                if s["res"] == "a" and (t is None or t["dt"] < 0 or t["dt"] > q):
+                if s["res"] == "a" and epoch(s["tick"]) == e and (t is None or t["dt"] < 0 or t["dt"] > q):
                     fails.append("P2: %s returned before accepted task %d had finished" % (what, s["id"]))
             for i, t in m["tasks"].items():
-                if t["st"] > q:
+                if t["st"] > q and epoch(t["st"]) == e:
                     fails.append("P3: task %d started after %s returned" % (i, what))
     return fails
 
